@@ -251,6 +251,162 @@ mod proofs {
     std::mem::forget(g);
   }
 
+  /// Shape-enumerated variants: all 9 pre-order shapes of <= 4 nodes and every start node
+  /// by concrete loops; verdict vector, kind labels, advertised kind set and match lengths
+  /// symbolic.  (With a symbolic *shape* the same drivers need > 15 min each.)
+  fn shapes_driver(which: u8) {
+    let mut bits = [false; MAXN];
+    let mut kinds = [1u16; MAXN];
+    let mut trim = [None; MAXN];
+    let mut i = 0;
+    while i < 4 {
+      bits[i] = kani::any();
+      let k: u16 = kani::any();
+      kani::assume(k >= 1 && k <= 8);
+      kinds[i] = k;
+      if kani::any() {
+        let x: u8 = kani::any();
+        kani::assume(x <= 1);
+        trim[i] = Some(x);
+      }
+      i += 1;
+    }
+    // advertised kind set: None, or a mask that contains the kind of every accepted node
+    let with_kinds: bool = kani::any();
+    let mask: u16 = kani::any();
+    let (pv, ns, cnt) = all_shapes(4);
+    let mut sidx = 0;
+    while sidx < cnt {
+      let n = ns[sidx];
+      let parent = pv[sidx];
+      let mut d = TreeData::from_parents(n, &parent);
+      let mut i = 0;
+      while i < 4 {
+        if i < n {
+          d.nodes[i].kind = kinds[i];
+          if with_kinds && bits[i] {
+            kani::assume(mask & (1 << kinds[i]) != 0);
+          }
+        }
+        i += 1;
+      }
+      let total = d.layout(&[1; MAXN], &[0; MAXN]) as usize;
+      d.fix_named_counts();
+      let (last, _) = subtree_info(n, &parent);
+      let kinds_set = if with_kinds && which == 0 {
+        let mut set = BitSet::new();
+        let mut k = 1;
+        while k <= 8 {
+          if mask & (1 << k) != 0 {
+            set.insert(k);
+          }
+          k += 1;
+        }
+        Some(set)
+      } else {
+        None
+      };
+      let m = SymM { bits, kinds: kinds_set, trim };
+      let g = mk_grep(&SRC_X[..total], d.clone());
+      let mut start = 0;
+      while start < n {
+        let node = node_at(&g, start);
+        // expected result set
+        let mut expect = [false; MAXN];
+        let mut i = start;
+        while i <= last[start] {
+          if bits[i] {
+            let mut shadowed = false;
+            if which != 0 {
+              let mut a = i;
+              while a != start {
+                a = parent[a] as usize;
+                if bits[a] {
+                  shadowed = true;
+                }
+              }
+            }
+            expect[i] = !shadowed;
+          }
+          i += 1;
+        }
+        let mut next_expected = start;
+        if which == 0 {
+          let mut it = node.find_all(&m);
+          while let Some(nm) = it.next() {
+            let i = idx_of(&nm);
+            while next_expected <= last[start] && !expect[next_expected] {
+              next_expected += 1;
+            }
+            assert!(i == next_expected, "missed, invented or out-of-order match");
+            next_expected += 1;
+          }
+          std::mem::forget(it);
+        } else if which == 1 {
+          let mut it = Visitor::new(&m).reentrant(false).visit(node);
+          while let Some(nm) = it.next() {
+            let i = idx_of(&nm);
+            while next_expected <= last[start] && !expect[next_expected] {
+              next_expected += 1;
+            }
+            assert!(i == next_expected);
+            next_expected += 1;
+          }
+          std::mem::forget(it);
+        } else {
+          let edits = node.replace_all(&m, ConstR);
+          let mut prev_end = 0;
+          let mut e = 0;
+          while e < edits.len() {
+            while next_expected <= last[start] && !expect[next_expected] {
+              next_expected += 1;
+            }
+            // edit e belongs to the e-th outermost match
+            assert!(next_expected <= last[start]);
+            let nd = &d.nodes[next_expected];
+            let full = (nd.end - nd.start) as usize;
+            let want_len = match trim[next_expected] {
+              None => full,
+              Some(x) => full - (x as usize).min(full),
+            };
+            assert!(edits[e].position == nd.start as usize && edits[e].deleted_length == want_len);
+            assert!(edits[e].position >= prev_end && edits[e].position + edits[e].deleted_length <= total);
+            prev_end = edits[e].position + edits[e].deleted_length;
+            next_expected += 1;
+            e += 1;
+          }
+          std::mem::forget(edits);
+        }
+        while next_expected <= last[start] && !expect[next_expected] {
+          next_expected += 1;
+        }
+        assert!(next_expected == last[start] + 1, "a matching node was dropped");
+        start += 1;
+      }
+      std::mem::forget(m);
+      std::mem::forget(g);
+      sidx += 1;
+    }
+    kani::cover!(bits[0] && bits[1] && bits[3]);
+    kani::cover!(!bits[0] && bits[2]);
+  }
+
+  #[kani::proof]
+  #[kani::unwind(10)]
+  fn c01_find_all_exact_shapes4() {
+    shapes_driver(0);
+  }
+  #[kani::proof]
+  #[kani::unwind(10)]
+  fn c01_outermost_pre_shapes4() {
+    shapes_driver(1);
+  }
+  #[kani::proof]
+  #[kani::unwind(10)]
+  fn c06_replace_all_disjoint_shapes4() {
+    shapes_driver(2);
+  }
+
   #[kani::proof]
   #[kani::unwind(10)]
   fn c01_find_all_exact_n4() {
